@@ -23,7 +23,7 @@ CHECKS = {
    technique="deterministic simulation: schedule search with structural invariants and a reference edge model"),
  "C11": dict(level="exploration", design="§5.4",
    text="On every schedule's finished graph separately: function entries are exactly the labels named by calls (read off the source text by the harness's own reader) or installed as interrupt handler; cfg.functions() has exactly those labels, all labels of one entry mapping to one function; each function's node list equals what an independent traversal reaches from its entry and per-node owner lists agree; each function has one exit, a return it reaches, every other return of it rewritten to lead to that exit; node-in-many-functions is reported iff two functions share a node. Workload rich in several labels per entry, interleaved bodies, forward and backward shared tails, fall-through entry, recursion, callers in dead code, 1-3 returns.",
-   note="Programs the analyzer rejects (function without return, CFG errors) are outside F1-F4 (C16's subject) and counted.",
+   note="Programs the analyzer rejects (function without return, CFG errors) are outside F1-F4 (C16's subject) and counted. One open known finding (KF-C11-1: a function reaching the exits of two other functions keeps two returns), matched by class and two features.",
    technique="deterministic simulation: schedule search with an independent traversal as oracle"),
  "C12": dict(level="exploration", design="§5.5",
    text="Histories of 1-8 extra runs of AvailableValuePass / EcallTerminationPass / LivenessPass / run_diagnostics applied to the finished graph: after every step the snapshot (edges by identity, seven fact kinds per node, functions) and the lint items equal those right after the pipeline; a second analysis of the same parsed nodes on one thread and the analyses under further entropy seeds give equal snapshots; sweeps per pass run (from the tick hook) stay within 4*nodes+16 and a hard cap turns oscillation into a reported non-convergence.",
@@ -34,7 +34,7 @@ CHECKS = {
    note="The pure-input part of the property (all byte strings, grammar-level mutations) is only sampled through content faults; no grammar coverage is claimed. Output-stream faults (EPIPE) are not alarms. The CPU limit is far above a normal run (10 s; 120 s for multiplied inputs), so it fires on non-termination or blow-up only.",
    technique="deterministic simulation: content, reader and system-call fault injection with crash/hang oracle"),
  "C15": dict(level="fault_enumeration", design="§5.6",
-   text="Refinement against the reference model 'textual inclusion, then the same analyzer': generated programs are cut at line boundaries into include trees (depth, sub-directories, several includes, missing file, self-include, two-cycle, file included twice) and linted through the in-memory FileReader under three reader personalities and a reader fault plan (five error kinds x import index), and through the real CLI reader under file-system faults (failing n-th open, short reads, EINTR); the diagnostics must equal those of the pasted single file mapped back through the line map, every failed include must yield exactly one error on its directive, everything else must still be analysed, and the run must end within the import budget. Fault enumeration over kind x instant for the reader faults, exploration for the program/cut space.",
+   text="Refinement against the reference model 'textual inclusion, then the same analyzer': generated programs are cut at line boundaries into include trees (depth, sub-directories, several includes, missing file, self-include, two-cycle, file included twice) and linted through the in-memory FileReader under three reader personalities and a reader fault plan (five error kinds x import index), through the editor integration's real LSPFileReader (compiled in by path), and through the real CLI reader under file-system faults (failing n-th open, short reads, EINTR) and shapes (missing file, directory / dangling symlink / invalid UTF-8 in place of a file, an included file behind a directory symlink whose own includes climb out with ..); the diagnostics must equal those of the pasted single file mapped back through the line map, every failed include must yield exactly one error on its directive, everything else must still be analysed, and the run must end within the import budget. Fault enumeration over kind x instant for the reader faults, exploration for the program/cut space.",
    note="Trusted: the cutter's line map (paste(cut(p)) = p by construction), the harness's model of which include fails (validated against the reader's import log on every run; a mismatch is counted, never reported). Worlds whose included file ends in an unterminated statement are excluded from the equality clause (line accounting, C07).",
    technique="deterministic simulation: reader/file-system fault injection with refinement against a paste model"),
  "C18": dict(level="exploration", design="§5.7",
@@ -83,7 +83,7 @@ def main():
       }],
       "checks": checks,
       "not_applicable": na,
-      "notes": "Technique family: deterministic simulation with fault injection. See DESIGN.md. Known findings / fixed defects: /verif/known_findings.json.",
+      "notes": "Technique family: deterministic simulation with fault injection. See DESIGN.md. Known findings / fixed defects: /verif/known_findings.json (one open finding, KF-C11-1). Determinism proof: ./check determinism <ID> <N>. Seeded changes and what catches them: /verif/seeded/RESULTS.md.",
     }
     json.dump(m, open("/verif/MANIFEST.json","w"), indent=1)
     print("MANIFEST.json written:", [c["property_id"] for c in checks])
